@@ -2,13 +2,14 @@
 # usage: tools/try_patch.sh <abs patch.diff> <PROP> [extra check args]
 # tries a seeded change in a scratch worktree of /repo (removed afterwards); /repo itself is not touched, so trials can run in parallel
 P=$1; shift
+ROOT="$(cd "$(dirname "$0")/.." && pwd)"
 W=$(mktemp -d /tmp/trypatch.XXXXXX); rmdir $W
 git -C /repo worktree add -q --detach $W HEAD || exit 9
 trap 'git -C /repo worktree remove --force '$W' 2>/dev/null; git -C /repo worktree prune' EXIT INT TERM HUP PIPE
 cp /repo/ethosu/*.so $W/ethosu/ 2>/dev/null
 git -C /repo diff | git -C $W apply 2>/dev/null   # carry over uncommitted changes of /repo (normally none)
 git -C $W apply "$P" || exit 9
-VERIF_REPO=$W /verif/check "$@" --evidence $W.evidence.json > $W.out 2>&1
+VERIF_REPO=$W "$ROOT/check" "$@" --evidence $W.evidence.json > $W.out 2>&1
 rc=$?
 grep -E "VIOLATION|KNOWN-FINDING|tier=|HARNESS-ERROR|INCONCLUSIVE" $W.out | cut -c1-400 | head -${TRY_LINES:-6}
 rm -f $W.out $W.evidence.json
